@@ -861,3 +861,57 @@ package secretstore
 //@   # precomputed key of the sender (one past its stored chain-key counter) may have been (re)written
 //@   ensures [C14.oos.nonconsuming] s != nil && envelope != nil && groupPublicKey != nil ==> (forall k Bytes {dsh(s.datastore)[k]} :: old(dsh(s.datastore))[k] ==> dsh(s.datastore)[k]
 //@        && (k != k_pre(pkv(groupPublicKey), bytes(envelope.DevicePk), (old(ckctr(s, pkv(groupPublicKey), bytes(envelope.DevicePk))) + 1) % 18446744073709551616) ==> dsv(s.datastore)[k] == old(dsv(s.datastore))[k]))
+
+//@ # ======================= C14: push payloads - group reference, envelope, offline open =======================
+//@ # oos_secret(group secret): the key references are derived from; oos_ref: the reference of (sender, counter)
+//@ spec func oos_secret(sec Bytes) Bytes = bslice(hkdf3(sec, bempty, "push_secret_ref"), 0, 32)
+//@ spec func oos_ref(sec Bytes, sender Bytes, c Int) Bytes = bslice(hkdf3(oos_secret(sec), bempty, bcat(sender, be64(c))), 0, 32)
+//@ spec func k_group(g Bytes) Bytes = key2("groupByPublicKey", b64(g))
+//@ func getGroupOutOfStoreSecret
+//@   for C14
+//@   safety
+//@   ensures [C14.secret] ret1 == nil ==> m != nil && len(m.Secret) != 0 && len(ret0) == 32 && bytes(ret0) == oos_secret(bytes(m.Secret))
+//@ # the reference is a keyed digest of (sender, counter) under a secret derived from the group secret
+//@ func createOutOfStoreGroupReference
+//@   for C14
+//@   safety
+//@   requires sender != nil ==> cap(sender) == len(sender)
+//@   ensures [C14.reference] ret1 == nil ==> m != nil && len(ret0) == 32 && bytes(ret0) == oos_ref(bytes(m.Secret), bytes(sender), counter)
+//@ func dsKeyForOutOfStoreMessageGroupHint
+//@   for C14
+//@   ensures result.string == k_hint(bytes(ref))
+//@ func dsKeyForGroup
+//@   for C14
+//@   ensures result.string == k_group(bytes(key))
+//@ # an unknown reference is refused: the group key comes from the hint stored under the reference
+//@ func (*secretStore).OutOfStoreGetGroupPublicKeyByGroupReference
+//@   for C14
+//@   safety
+//@   requires s != nil && s.datastore != nil && unlocked(addr(s.messageMutex))
+//@   modifies lockstate(addr(s.messageMutex))
+//@   ensures [C14.reference.known] ret1 == nil ==> ret0 != nil && dsh(s.datastore)[k_hint(bytes(ref))] && pkv(ret0) == dsv(s.datastore)[k_hint(bytes(ref))]
+//@   ensures [C14.reference.unknown] !dsh(s.datastore)[k_hint(bytes(ref))] ==> ret1 != nil
+//@   ensures unlocked(addr(s.messageMutex))
+//@ func (*secretStore).FetchGroupByPublicKey
+//@   for C14
+//@   safety
+//@   requires s != nil && s.datastore != nil && publicKey != nil
+//@   ensures [C14.group.fetch] ret1 == nil ==> ret0 != nil && fresh(ret0) && dsh(s.datastore)[k_group(pkv(publicKey))] && punmarshal_ok(dsv(s.datastore)[k_group(pkv(publicKey))])
+//@   ensures [C14.group.fetch.total] dsh(s.datastore)[k_group(pkv(publicKey))] && punmarshal_ok(dsv(s.datastore)[k_group(pkv(publicKey))]) ==> ret1 == nil
+//@ # the envelope opens only under the shared secret of the group the reference designates
+//@ func (*secretStore).decryptOutOfStoreMessageEnv
+//@   for C14
+//@   safety
+//@   requires s != nil && s.datastore != nil && env != nil && groupPK != nil
+//@   ensures [C14.envelope.opens] ret1 == nil ==> ret0 != nil && fresh(ret0) && dsh(s.datastore)[k_group(pkv(groupPK))] && punmarshal_ok(dsv(s.datastore)[k_group(pkv(groupPK))])
+//@        && (exists k Bytes :: sbox_ok(bytes(env.Box), bytes(env.Nonce), k))
+//@ # offline open: on success the group is the one the reference designates and is never nil; an altered payload or an
+//@ # unknown reference is an error (authenticity and the truthful 'already received' flag are C14.oos.* on OutOfStoreMessageOpen)
+//@ func (*secretStore).OpenOutOfStoreMessage
+//@   for C14
+//@   havocall
+//@   requires s != nil && s.datastore != nil && s.logger != nil && unlocked(addr(s.messageMutex))
+//@   requires cid.Undef.str == bempty
+//@   requires forall c Bytes {k_cid(c)} :: dsh(s.datastore)[k_cid(c)] ==> blen(dsv(s.datastore)[k_cid(c)]) == 32
+//@   at (*secretStore).OutOfStoreMessageOpen requires [C14.open.group-of-reference] groupPublicKey != nil
+//@   at (*secretStore).UpdateOutOfStoreGroupReferences requires [C14.open.window-update] group != nil
